@@ -222,7 +222,9 @@ AF = {'any': socket.AF_UNSPEC, 'inet': socket.AF_INET,
 
 SEPS = [' ', '=', ' = ', ' =', '= ', '\t', '  ']
 INDENTS = ['', '  ', '\t', '    ']
-TRAILS = ['', ' ', '\t']
+# (ssh_config(5): a '#' that begins a word starts a comment - not on lines
+# whose argument is the raw rest of the line)
+TRAILS = ['', ' ', '\t', ' # a comment', '\t#x y']
 
 
 class Err(Exception):
@@ -406,7 +408,8 @@ def render_line(line: Sequence[Any], root: str, lu: str) -> str:
         return ind + _case(line[1], cmode) + SEPS[sep] + ' '.join(args) + trl
 
     if kind == 'nosplit':
-        return ind + _case(line[1], cmode) + SEPS[sep] + line[2] + trl
+        return ind + _case(line[1], cmode) + SEPS[sep] + line[2] + \
+            TRAILS[trail if trail < 3 else 0]
 
     raise HarnessError('unknown line kind %r' % (kind,))
 
@@ -1577,7 +1580,9 @@ HOST_PATS = ['*', 'foo', 'bar', 'foo*', '*.example.com', 'db?', 'db*',
              '*.internal', '10.0.0.?', 'f?o', 'nomatch', '*o*',
              'real.example.com', 'h-*', '*.example.*']
 # ('#' only starts a comment at the beginning of a word: misc.c argv_split)
-USERS = ['alice', 'bob', 'deploy', 'root', 'build#7']
+# (a backslash only escapes a quote, a backslash or an unquoted space:
+# misc.c argv_split - 'DOM\\alice' is the Windows-domain idiom)
+USERS = ['alice', 'bob', 'deploy', 'root', 'build#7', 'DOM\\alice']
 USER_PATS = ['*', 'alice', 'bob', 'a*', '?ob', 'deploy', '@LU@', 'nobody',
              'r*']
 TAG_PATS = ['prod', 'dev', 'p*', '*', 'd?v']
@@ -1592,7 +1597,7 @@ def _style(draw, nargs: int = 1, eq: bool = True):
     cmode = draw(upick([0, 0, 0, 1, 2]))
     sep = draw(upick([0, 0, 0, 1, 2, 3, 4, 5, 6])) if eq else 0
     indent = draw(upick([0, 1, 1, 2, 3]))
-    trail = draw(upick([0, 0, 0, 1, 2]))
+    trail = draw(upick([0, 0, 0, 1, 2, 3, 4]))
     qmask = draw(upick([0, 0, 0, 1, 2, 3])) if nargs else 0
     return [cmode, sep, indent, trail, qmask]
 
